@@ -435,7 +435,7 @@ def _dval(v: Any) -> Any:
     return [type(v).__name__, v]
 
 
-def real_dump(real: Dict[str, Any], kinds: Dict[str, str]) -> Dict[str, Any]:
+def real_dump(real: Dict[str, Any], kinds: Dict[str, str], with_index: bool = True) -> Dict[str, Any]:
     """Identity-aware dump of the real objects in the same shape as
     expected_dump.  Reads attributes only; never ==, repr or renderers."""
     from .snapshot import qual
@@ -519,7 +519,7 @@ def real_dump(real: Dict[str, Any], kinds: Dict[str, str]) -> Dict[str, Any]:
             out[h] = {"tables": L(o.tables), "refs": L(o.refs), "enums": L(o.enums), "groups": L(o.table_groups),
                       "notes": L(o.sticky_notes), "project": R(o.project), "allow_properties": o.allow_properties,
                       "sqlr": qual(o.sql_renderer), "dbmlr": qual(o.dbml_renderer),
-                      "table_dict": sorted([key, R(t)] for key, t in o.table_dict.items())}
+                      "table_dict": sorted([key, R(t)] for key, t in o.table_dict.items()) if with_index else "not read"}
     return out
 
 
